@@ -343,6 +343,14 @@ def judge_programs(ctx, runner, cases, srcs, stats):
             stats["ir_undefined"] += 1          # input on which the reference does not define a result / not modelled
             stats["ir_fail_reasons"][str(a.get("msg"))[:60]] = stats["ir_fail_reasons"].get(str(a.get("msg"))[:60], 0) + 1
             continue
+        ill = mslgen.illformed_dc(c["text"]) if c.get("tag") in ("prog", "corpus") else None
+        if ill:
+            stats["disagreements"] += 1
+            report("program %s (entry point %s, options %s): the emitted MSL does not compile: %s\n... %s ..."
+                   % (name, c["ep"], c["set"], mslgen.ILLFORMED_DC, ill[0]),
+                   {"input.wgsl": srcs.get(name, ""), "emitted.msl": c["text"]},
+                   "%s:%s:%s" % (c["tag"], name, mslprogs.P.get(name, {}).get("finding") or "illformed-dc"))
+            continue
         if not b.get("ok"):
             msg = str(b.get("msg"))
             if b.get("kind") == "outoffuel" or msg.startswith("not modelled") or b.get("kind") in ("decode", "crash"):
@@ -674,7 +682,7 @@ def judge_generated(ctx, tools, enums, runner, cases, asts, srcs):
         a = runner.ir_res[c["ir"]]
         b = runner.msl_res[c["msl"]]
         st["runs"] += 1
-        cls, detail = mslgen.classify(plan, c["set"], a, b, has_workgroup(plan), not c["unparsed"])
+        cls, detail = mslgen.classify(plan, c["set"], a, b, has_workgroup(plan), not c["unparsed"], mslgen.illformed_dc(c["text"]))
         if cls == "undefined":
             st["inputs_undefined_in_reference"] += 1
             st["reference_fail_reasons"][detail[:60]] = st["reference_fail_reasons"].get(detail[:60], 0) + 1
